@@ -14,6 +14,7 @@ import ast
 
 from .. import flow
 from ..astutil import (
+    polarity_atoms,
     body_walk,
     call_name,
     call_recv,
@@ -718,6 +719,56 @@ def r6_7(ctx):
     ctx.require(waits, "get_mailbox: event.wait() not found")
 
 
+def r6_8(ctx):
+    """Sibling agreement of the selected-state guards: every handler that works on `self.mbox` (its admission names
+    self.mbox, or it is CLOSE/UNSELECT) begins by refusing - with a tagged NO/BAD - when the session is not in the SELECTED
+    state, and by saying BYE when the selected mailbox has gone.  Arm-exact: a negated guard refuses the command exactly when
+    it is legal and lets it through, onto `self.mbox is None`, when it is not (AttributeError -> no tagged reply path of its
+    own)."""
+    p = ctx.p
+    ci = p.cls("Authenticated")
+    n = 0
+    for m, fi in sorted(ci.methods.items()):
+        if not m.startswith("do_"):
+            continue
+        on_selected = any(norm(c.args[0]) == "self.mbox" for _, c in admission_items(fi) if c.args) or m in ("do_close", "do_unselect")
+        if not on_selected:
+            continue
+        n += 1
+        ctx.analysed(fi)
+        state_ok = mbox_ok = False
+        for st in fi.node.body:
+            if not isinstance(st, ast.If):
+                continue
+            for a, pos in polarity_atoms(st.test):
+                if isinstance(a, ast.Compare) and norm(a.left) == "self.state" and "SELECTED" in norm(a.comparators[0]):
+                    refuses_when_not_selected = (isinstance(a.ops[0], ast.NotEq) and pos) or (isinstance(a.ops[0], ast.Eq) and not pos)
+                    if refuses_when_not_selected and any(isinstance(b, ast.Raise) for b in st.body):
+                        state_ok = True
+                # `self.mbox is None` / `not self.mbox`
+                if isinstance(a, ast.Compare) and norm(a.left) == "self.mbox" and isinstance(a.comparators[0], ast.Constant) and a.comparators[0].value is None:
+                    gone = (isinstance(a.ops[0], ast.Is) and pos) or (isinstance(a.ops[0], ast.IsNot) and not pos)
+                    if gone and any(isinstance(b, ast.Return) for b in st.body):
+                        mbox_ok = True
+                if isinstance(a, ast.Attribute) and norm(a) == "self.mbox":
+                    if not pos and any(isinstance(b, (ast.Return, ast.Raise)) for b in st.body):
+                        mbox_ok = True
+                    if pos and m == "do_unselect":
+                        mbox_ok = True  # UNSELECT: `if self.mbox: unselect it` - nothing to refuse
+        if state_ok and mbox_ok:
+            ctx.ok("R6.8", where(fi), "refuses outside the SELECTED state; leaves when the selected mailbox is gone")
+        else:
+            what = [] if state_ok else ["`if self.state != ClientState.SELECTED: raise No/Bad`"]
+            what += [] if mbox_ok else ["`if self.mbox is None: ... return`"]
+            ctx.bad(
+                "R6.8", fi.module, fi.qual, " and ".join(what) + " missing or negated",
+                f"{m[3:].upper()} does not start with the guard(s) its sibling handlers have ({', '.join(what)}): the command is refused exactly "
+                "when it is legal, or runs on a session without a selected mailbox and dies on `self.mbox` being None",
+                fi.node.lineno,
+            )
+    ctx.floor("R6.8", n, 9, "handlers that operate on the selected mailbox")
+
+
 def run(ctx):
     ctx.do(r6_1)
     ctx.do(r6_2)
@@ -725,6 +776,7 @@ def run(ctx):
     ctx.do(r6_4)
     ctx.do(r6_6)
     ctx.do(r6_7)
+    ctx.do(r6_8)
     # R6.5 = C08 R8.1 (a non-BadCommand exception from parse() skips every reply path); admission relation and
     # release-before-acquire are necessary for every command to be answered without the watchdog
     from . import c08, c10
